@@ -232,6 +232,17 @@ func CheckFields(input PDU) error { // nolint: gocyclo
 		}
 	}
 
+	// The code point limit on the sender is strict too, so it has to be
+	// checked before any of the lenient byte size checks can return.
+	if input.Version() != RoomVersionPseudoIDs {
+		if l := utf8.RuneCountInString(string(input.SenderID())); l > maxIDLength {
+			return EventValidationError{
+				Code:    EventValidationTooLarge,
+				Message: fmt.Sprintf("gomatrixserverlib: user ID is too long, length %d > maximum %d", l, maxIDLength),
+			}
+		}
+	}
+
 	_, persistable := lenientByteLimitRoomVersions[input.Version()]
 
 	// Byte size check: if these fail, then be lenient to avoid breaking rooms.
